@@ -35,6 +35,7 @@ const (
 	kSubExecErr                   // subscribe / start whose executor fails at once (unparsable query, as ExecutorV2 reports it)
 	kSubBadPayload                // subscribe / start whose payload cannot be decoded
 	kSubGetFail                   // subscribe / start for which ExecutorPool.Get returns an error
+	kSubHookReject                // subscribe / start of an operation the engine's WebsocketBeforeStartHook rejects (real ExecutorV2)
 	kComplete                     // complete (transport-ws) / stop (legacy)
 	kTerminate                    // connection_terminate (legacy)
 	kUnknown                      // a message with an unknown / missing type
@@ -53,7 +54,7 @@ type sym struct {
 
 func (s sym) isSub() bool {
 	switch s.kind {
-	case kSubQuery, kSubSub, kSubExecErr, kSubBadPayload, kSubGetFail:
+	case kSubQuery, kSubSub, kSubExecErr, kSubBadPayload, kSubGetFail, kSubHookReject:
 		return true
 	}
 	return false
@@ -77,7 +78,7 @@ var twsAlphabet = []sym{
 	{name: "Ss1", kind: kSubSub, id: "1"},
 	{name: "Ss2", kind: kSubSub, id: "2"},
 	{name: "Sx1", kind: kSubExecErr, id: "1"},
-	{name: "Sx2", kind: kSubExecErr, id: "2"},
+	{name: "Sh1", kind: kSubHookReject, id: "1"},
 	{name: "C1", kind: kComplete, id: "1"},
 	{name: "C2", kind: kComplete, id: "2"},
 	{name: "U", kind: kUnknown},
@@ -94,6 +95,7 @@ var gwsAlphabet = []sym{
 	{name: "Ts1", kind: kSubSub, id: "1"},
 	{name: "Ts2", kind: kSubSub, id: "2"},
 	{name: "Tx1", kind: kSubExecErr, id: "1"},
+	{name: "Th1", kind: kSubHookReject, id: "1"},
 	{name: "St1", kind: kComplete, id: "1"},
 	{name: "St2", kind: kComplete, id: "2"},
 	{name: "T", kind: kTerminate},
@@ -110,6 +112,8 @@ var twsExtra = []sym{
 	{name: "Ss3", kind: kSubSub, id: "3"},
 	{name: "Sp1", kind: kSubBadPayload, id: "1"},
 	{name: "Sp2", kind: kSubBadPayload, id: "2", variant: 1},
+	{name: "Sx2", kind: kSubExecErr, id: "2"},
+	{name: "Sh2", kind: kSubHookReject, id: "2"},
 	{name: "Sg1", kind: kSubGetFail, id: "1"},
 	{name: "Sg2", kind: kSubGetFail, id: "2"},
 	{name: "C3", kind: kComplete, id: "3"},
@@ -129,6 +133,7 @@ var gwsExtra = []sym{
 	{name: "Tq3", kind: kSubQuery, id: "3"},
 	{name: "Ts3", kind: kSubSub, id: "3"},
 	{name: "Tx2", kind: kSubExecErr, id: "2"},
+	{name: "Th2", kind: kSubHookReject, id: "2"},
 	{name: "Tg1", kind: kSubGetFail, id: "1"},
 	{name: "St3", kind: kComplete, id: "3"},
 	{name: "U1", kind: kUnknown, variant: 1},
@@ -153,6 +158,8 @@ func queryText(k symKind, t int) string {
 		return fmt.Sprintf("x_%d {{{ not graphql", t)
 	case kSubGetFail:
 		return fmt.Sprintf("query g_%d { a }", t)
+	case kSubHookReject:
+		return fmt.Sprintf("query h_%d { __typename }", t)
 	}
 	return ""
 }
@@ -176,7 +183,7 @@ func render(p proto, s sym, t int) []byte {
 			return []byte(`{"type":"pong","payload":{"q":1}}`)
 		}
 		return []byte(`{"type":"pong"}`)
-	case kSubQuery, kSubSub, kSubExecErr, kSubGetFail:
+	case kSubQuery, kSubSub, kSubExecErr, kSubGetFail, kSubHookReject:
 		typ := "subscribe"
 		if p == protoGWS {
 			typ = "start"
@@ -351,7 +358,7 @@ func gatedOps(p proto, w []sym) []int {
 			inited = true
 		case kInitReject, kUnknown, kBadJSON:
 			alive = false
-		case kSubQuery, kSubSub, kSubExecErr, kSubBadPayload, kSubGetFail:
+		case kSubQuery, kSubSub, kSubExecErr, kSubBadPayload, kSubGetFail, kSubHookReject:
 			if !inited {
 				alive = false
 			} else if s.gated() {
